@@ -76,6 +76,7 @@ func (a *adapter) Flight(key, cmd string, ttl time.Duration, now time.Time) (Red
 	if flight != nil {
 		return RedisMessage{}, flight
 	}
+	verifPoint("adapter.flight.upgrade", a, key, cmd)
 	a.mu.Lock()
 	entries := a.flights[key]
 	if entries == nil && a.flights != nil {
